@@ -39,6 +39,8 @@ subscription DS($b: Boolean!) { o { a ... @defer(if: $b) { c } ... @defer(if: fa
 fragment V on Q { k1: b(x: 1, y: {r: 1, d: $v, n: {r: 2, d: $v}}) o { n(x: $v) } ...W }
 fragment W on Q { k2: b(x: 2, l: [$v, 1]) s @include(if: true) @dq(x: $v) }",
     "{ o { ...F2 o { ...F2 l3 { ...F2 } } } i { ... on O { ...F2 } } ...Q2 } fragment F2 on O { a c } fragment Q2 on Q { o { ...F2 } s }",
+    // a chain of fragments: one added spread closes a cycle through the entry fragment, or a lasso behind it
+    "{ o { ...A1 } } fragment A1 on O { a ...B1 } fragment B1 on O { c ...C1 } fragment C1 on O { a o { c } }",
 ];
 
 fn value_abs(v: &ast::Value) -> J {
@@ -245,7 +247,18 @@ pub fn doc_mutants(d: &J) -> Vec<(String, J)> {
                         c.push(json!({"k": "field", "alias": "", "name": nm, "on": "", "args": [], "dirs": [], "sels": if sub { json!([{"k": "field", "alias": "", "name": "a", "on": "", "args": [], "dirs": [], "sels": []}]) } else { json!([]) }}));
                         out.push((format!("{pstr}:select={nm}"), set(d, p, J::Array(c))));
                     }
-                    for fr in ["F", "G", "H", "Undefined"] {
+                    // the same field once more under another response key (merging is trivially fine; a subscription gains a second root field)
+                    if let Some(f0) = a.iter().find(|x| x["k"] == "field") {
+                        let mut c = a.clone();
+                        let mut dup = f0.clone();
+                        dup["alias"] = json!("dup9");
+                        c.push(dup);
+                        out.push((format!("{pstr}:select-again-aliased"), set(d, p, J::Array(c))));
+                    }
+                    // the document's own fragments (cycles, lassos behind a lead-in fragment, type mismatches) and an undefined one
+                    let mut names: Vec<String> = d["fragments"].as_array().unwrap_or(&vec![]).iter().filter_map(|f| f["name"].as_str().map(|x| x.to_string())).collect();
+                    names.push("Undefined".to_string());
+                    for fr in names.iter().map(|x| x.as_str()) {
                         let mut c = a.clone();
                         c.push(json!({"k": "spread", "alias": "", "name": fr, "on": "", "args": [], "dirs": [], "sels": []}));
                         out.push((format!("{pstr}:spread={fr}"), set(d, p, J::Array(c))));
@@ -268,9 +281,12 @@ pub fn doc_mutants(d: &J) -> Vec<(String, J)> {
                 match last.as_str() {
                     "name" => {
                         let parent = get(d, &p[..p.len() - 1]);
+                        let own: Vec<String> = d["fragments"].as_array().unwrap_or(&vec![]).iter().filter_map(|f| f["name"].as_str().map(|x| x.to_string())).collect();
+                        let mut spread_pool: Vec<&str> = vec!["F", "G", "H", "Undefined"];
+                        for n in &own { if !spread_pool.contains(&n.as_str()) { spread_pool.push(n.as_str()); } }
                         let pool: Vec<&str> = if parent.get("k").is_some() && parent["k"] == "field" { field_names.to_vec() }
                             else if parent.get("k").is_some() && parent["k"] == "inline" { vec![] }
-                            else if parent.get("k").is_some() { vec!["F", "G", "H", "Undefined"] }
+                            else if parent.get("k").is_some() { spread_pool }
                             else if parent.get("on").is_some() { vec!["F", "G", "H", "X"] }
                             else if parent.get("vars").is_some() { vec!["", "Q1", "M1", "Other"] }
                             else if parent.get("type").is_some() { vec!["v", "w", "x", "e", "zz"] }
@@ -379,12 +395,26 @@ pub fn cases(args: &[String]) {
     }
     let mut out = Out::new();
     let mut n = 0usize;
+    let mut seen_kinds: std::collections::HashSet<String> = std::collections::HashSet::new();
     let mut emit = |out: &mut Out, d: &J, origin: String, force: bool| {
         if !well_formed_text(d) {
             return;
         }
         n += 1;
-        if !force && n % every != 0 {
+        // sampling keeps every `every`-th mutant, and in any case the first mutant of each
+        // (seed, top-level definition, mutation kind): a rule that has ONE place to bite (the root selection set of
+        // the only subscription) must not fall between the strides
+        let first_of_its_kind = {
+            let parts: Vec<&str> = origin.splitn(3, ':').collect();
+            if parts.len() == 3 {
+                let def: String = parts[1].split('/').take(2).collect::<Vec<_>>().join("/");
+                let kind = parts[2].split(|c| c == '=' || c == '[').next().unwrap_or("");
+                seen_kinds.insert(format!("{}|{}|{}", parts[0], def, kind))
+            } else {
+                false
+            }
+        };
+        if !force && !first_of_its_kind && n % every != 0 {
             return;
         }
         let text = render_doc(d);
